@@ -317,6 +317,7 @@ def run(ctx):
                 same = by.get(ip) == mc.normalise_block(sout)
             if not same:
                 fail('multi_differs_from_single', inp, 'the report of this target in the fleet run', 'its single-target report')
+    spelling_stage(ctx, fail, cov)
     # (d) policy verdicts are per target
     d = tempfile.mkdtemp(prefix='verif_c07_')
     try:
@@ -353,9 +354,58 @@ def run(ctx):
             'observations': ['D29: Policy._errors accumulates across evaluate() calls; the per-target deepcopy of the configuration keeps targets apart (checked end-to-end in the policy runs)']}
 
 
+def spelling_stage(ctx, fail, cov):
+    """(g) targets files mixing lines with and without an explicit port (and a -p default): each target's block equals the single-target run of the
+    same spelling — a port (or anything else parsed from one line) must not carry over to the next line (seed C07-7)"""
+    import tempfile as _tf
+    r = ctx.rng
+    arch = {k: v for k, v in mc.arch_servers().items() if k in ('A', 'C', 'G', 'H')}
+    fixed = [([('A', 2222), ('G', None)], None), ([('G', None), ('A', 2222), ('C', None), ('H', 8022)], None), ([('A', 2222), ('G', None), ('C', None)], 2200),
+             ([('A', 22), ('G', None)], 2200), ([('G', 65535), ('A', None), ('A', 1)], None)]
+    cases = list(fixed)
+    for _ in range(ctx.scale(8, 120)):
+        n = r.choice([2, 3, 4])
+        cases.append(([(r.choice(sorted(arch)), r.choice([None, None, 22, 2222, 8022, 222])) for _ in range(n)], r.choice([None, None, 2200, 22])))
+    for entries, dflt in cases:
+        for extra in ([], ['-j']):
+            eff = [(p if p is not None else (dflt if dflt is not None else 22)) for _, p in entries]
+            ips = [mc.ip_of(i) for i in range(len(entries))]
+            texts = [ip if p is None else '%s:%d' % (ip, p) for ip, (_, p) in zip(ips, entries)]
+            table = {(ip, pe): mc.fresh_copy(arch[n]) for ip, pe, (n, _) in zip(ips, eff, entries)}
+            fd, path = _tf.mkstemp(prefix='verif_targets_')
+            os.write(fd, ('\n'.join(texts) + '\n').encode())
+            os.close(fd)
+            popt = ['-p', str(dflt)] if dflt is not None else []
+            threads = r.choice([1, 1, 2])
+            try:
+                code, out = fn.run_main(['-n', '--skip-rate-test'] + popt + ['-T', path, '--threads', str(threads)] + extra, fn.FakeNet(table))
+            finally:
+                os.unlink(path)
+            inp = {'stage': 'spelling', 'targets_file': texts, 'archetypes': [n for n, _ in entries], 'port_option': dflt, 'threads': threads, 'args': extra}
+            cov.add(('spelling', tuple(texts), dflt, tuple(extra)), True, tags=['mixed-port-spellings', 'json' if extra else 'text'])
+            blocks = None if extra else {mc.block_target(b): mc.normalise_block(b) for b in mc.split_text_blocks(out)}
+            for ip, pe, t, (n, _) in zip(ips, eff, texts, entries):
+                scode, sout = fn.run_main(['-n', '--skip-rate-test'] + popt + extra + [t], fn.FakeNet({(ip, pe): mc.fresh_copy(arch[n])}))
+                if extra:
+                    try:
+                        got = [e_ for e_ in json.loads(out) if isinstance(e_, dict) and e_.get('target') == '%s:%d' % (ip, pe)]
+                        same = bool(got) and got[0] == json.loads(sout)
+                    except ValueError:
+                        same = False
+                else:
+                    label = ip if pe == 22 else '%s:%d' % (ip, pe)
+                    same = blocks.get(label) == mc.normalise_block(sout)
+                if not same:
+                    fail('multi_differs_from_single', dict(inp, target=t), 'the result for this line in the multi-target run', 'the single-target run of the same spelling (exit %s)' % scode)
+
+
 def replay(obj):
     f = obj.get('failure', obj)
     inp = f['input']
+    if inp.get('stage') == 'spelling':
+        import sys
+        from common import rerun_for_signature
+        return rerun_for_signature(sys.modules[__name__], f)
     servers = mc.arch_servers()
     servers.update(mc.edit_then_abort_servers())
     if 'fleet' in inp:
